@@ -393,6 +393,9 @@ impl Receiver {
         // re-attach the link
         self.inner.session = new_session.control.clone();
         self.inner.outgoing = new_session.outgoing.clone();
+        // The link now lives on this session: it is this session's stop reason that its
+        // operations have to report from now on
+        self.inner.link.session_stop_reason = new_session.session_stop_reason().clone();
         let exchange_result = self
             .inner
             .resume_incoming_attach(None, is_reattaching)
@@ -1623,6 +1626,9 @@ impl DetachedReceiver {
 
         self.inner.session = session.control.clone();
         self.inner.outgoing = session.outgoing.clone();
+        // The link now lives on this session: it is this session's stop reason that its
+        // operations have to report from now on
+        self.inner.link.session_stop_reason = session.session_stop_reason().clone();
 
         self.resume_inner(is_reattaching).await
     }
@@ -1665,6 +1671,9 @@ impl DetachedReceiver {
 
         self.inner.session = session.control.clone();
         self.inner.outgoing = session.outgoing.clone();
+        // The link now lives on this session: it is this session's stop reason that its
+        // operations have to report from now on
+        self.inner.link.session_stop_reason = session.session_stop_reason().clone();
 
         let exchange = try_as_recver!(
             self,
@@ -1696,6 +1705,9 @@ impl DetachedReceiver {
             let is_reattaching = !self.inner.session.same_channel(&session.control);
             self.inner.session = session.control.clone();
             self.inner.outgoing = session.outgoing.clone();
+            // The link now lives on this session: it is this session's stop reason that its
+            // operations have to report from now on
+            self.inner.link.session_stop_reason = session.session_stop_reason().clone();
             self.resume_with_timeout_inner(duration, is_reattaching).await
         }
 
@@ -1750,6 +1762,9 @@ impl DetachedReceiver {
 
             self.inner.session = session.control.clone();
             self.inner.outgoing = session.outgoing.clone();
+            // The link now lives on this session: it is this session's stop reason that its
+            // operations have to report from now on
+            self.inner.link.session_stop_reason = session.session_stop_reason().clone();
 
             let fut = self.inner.resume_incoming_attach(Some(remote_attach), is_reattaching);
 
